@@ -127,6 +127,22 @@ NA = {
 }
 
 
+def rule_inventory(pid):
+    """'C01.1 <description>; C01.2 ...' read from the rule module (as built)."""
+    import re
+    try:
+        src = open(os.path.join(HERE, 'rules', pid + '.py')).read()
+    except OSError:
+        return ''
+    rules = re.findall(r"rep\.rule\('(%s[^']*)',\s*'((?:[^'\\]|\\.)*)'" % pid, src)
+    seen, out = set(), []
+    for rid, desc in rules:
+        if rid not in seen:
+            seen.add(rid)
+            out.append('%s %s' % (rid, desc.replace("\\'", "'")))
+    return '; '.join(out)
+
+
 def main():
     checks = []
     na = []
@@ -145,7 +161,7 @@ def main():
             'evidence_file': '/verif/evidence/%s.json' % pid,
             'replay_cmd_template': './check %s --replay {path}' % pid,
             'engine': 'sa',
-            'level_claimed': {'category': 'other', 'text': d['text'], 'design_ref': 'DESIGN.md section ' + d['ref']},
+            'level_claimed': {'category': 'other', 'text': d['text'] + ' Rules as built: ' + rule_inventory(pid) + '.', 'design_ref': 'DESIGN.md section ' + d['ref']},
             'level_note': 'Static analysis of the source only: a named structural clause that is a necessary condition of the property, '
                           'not the behaviour over the runtime domain. ' + TRUST,
             'technique': 'static analysis: ' + d['technique'],
@@ -162,13 +178,19 @@ def main():
         },
         'engines': [
             {'name': 'sa', 'path': '/verif/sa', 'serves_properties': [c['property_id'] for c in checks],
-             'kind_free_text': 'stdlib-only static analysis: loader/C3-MRO/sdproperty table, byte-term abstract interpreter, statement CFG '
-                               'with dominators, codec-pair extractor, flag-predicate typing, regex-AST facts, RFC-derived templates'},
+             'kind_free_text': 'stdlib-only static analysis: loader/C3-MRO/sdproperty table, semantics-preserving canonicaliser (new helpers, '
+                               'closures and constants inlined; spelling normal forms), byte-term abstract interpreter with per-path facts/events, '
+                               'exact-path frames for search loops, statement CFG with dominators and class-aware exception edges, codec-pair '
+                               'extractor, truth-table condition algebra, regular-language comparison of regexes, string-term piece sequences, '
+                               'RFC-derived templates, and a checker-side finite-point evaluator for small numeric codecs (DESIGN.md 10.8)'},
         ],
         'checks': checks,
         'not_applicable': na,
         'notes': 'All checks are static (ast). exit 0 holds / exit 1 VIOLATION / exit 2 ANALYSIS-ERROR (checker cannot see; never a violation). '
-                 'Genuine defects found on the pinned snapshot were repaired by fix: commits in /repo (see known_findings.json "fixed").',
+                 'Genuine defects found on the pinned snapshot were repaired by fix: commits in /repo (see known_findings.json "fixed"); two are '
+                 'recorded as known findings (C11.5, C08.d) and print KNOWN-FINDING lines. Regression corpora committed under /verif: seeded/ (161 '
+                 'property-breaking changes by independent agents, tools/run_seeded.py must print missed=0), twins/ (179 behaviour-preserving '
+                 'refactorings, tools/run_twins.py must print noisy=0), selftest/ (in-memory mutants and twins run by the thorough tier).',
     }
     with open(os.path.join(HERE, 'MANIFEST.json'), 'w') as fh:
         json.dump(m, fh, indent=1)
